@@ -19,7 +19,8 @@
      quantities, price = the normalised price of the last day (= price_on of the declarations up
      to the last day; a day without declarations carries the previous prices forward:
      C03_prices_carried_forward), n_steps = number of the cell's postings after the stage = the
-     number of Multiply calls that contributed (one per booking, one per revaluation).
+     number of Multiply calls that contributed (one per booking, one per revaluation); it is at
+     most (bookings of the cell + number of days): C03_mark_to_market_input_bound.
      C03_mark_to_market_exact: no error at all when quantities have at most kq and prices at most
      kp decimals, kq + kp <= 8.  C03_held_has_price: a non-zero final quantity has a price (the
      0 that price_value returns for a missing price is never used).
@@ -140,6 +141,17 @@ Theorem C03_mark_to_market : forall v a c ds0 s1 ds1 s2 ds2,
     <= inject_Z (cell_count a c (days_postings ds2)) * (1 # 100000000).
 Proof. exact mark_to_market_pipeline. Qed.
 Print Assumptions C03_mark_to_market.
+
+(* the same with a step count read off the input: at most one revaluation per day for a cell *)
+Theorem C03_mark_to_market_input_bound : forall v a c ds s' ds',
+  account_ok a = true -> is_AL a = true -> c <> v ->
+  Forall posting_in_ok (days_postings ds) ->
+  process_days (valuate_proc v) val_init ds = ROk (s', ds') ->
+  Qabs (cell_value a c (days_postings ds')
+        - cell_qty a c (days_postings ds) * price_value (last_normalized None ds) c)
+    <= inject_Z (cell_count a c (days_postings ds) + Z.of_nat (length ds)) * (1 # 100000000).
+Proof. exact mark_to_market_stage_input_bound. Qed.
+Print Assumptions C03_mark_to_market_input_bound.
 
 (* no truncation at all when no product has more than 8 decimals *)
 Theorem C03_mark_to_market_exact : forall v a c kq kp ds s' ds',
